@@ -747,8 +747,7 @@ class YDMDumper(yaml.SafeDumper):
     def represent_newobj(self, data: t.Any) -> yaml.Node:
         assert isinstance(data, NewObject)
         attrs = dict(data._kw)
-        if data._type_hint:
-            attrs["_type"] = data._type_hint
+        attrs["_type"] = data._type_hint
         return self.represent_mapping("!new_object", attrs)
 
     def represent_findby(self, data: t.Any) -> yaml.Node:
